@@ -968,10 +968,13 @@ Qed.
 
 (* ------------------------------------------------------------------ switch *)
 
-Lemma nth_error_skipn {A} (l : list A) : forall i x, nth_error l i = Some x -> exists l', skipn i l = x :: l'.
+Lemma nth_error_skipn {A} (l : list A) : forall i x, nth_error l i = Some x -> skipn i l = x :: skipn (S i) l.
 Proof.
-  induction l as [|a l IH]; intros [|i] x H; simpl in *; try discriminate; [inversion H; eauto | apply IH; exact H].
+  induction l as [|a l IH]; intros [|i] x H; simpl in *; try discriminate; [inversion H; reflexivity | apply IH; exact H].
 Qed.
+
+Lemma wf_case_body body ft : forallb wf body = true -> forallb wf (case_body body ft) = true.
+Proof. intros H. destruct ft; simpl; [|exact H]. rewrite forallb_app, H. reflexivity. Qed.
 
 Lemma default_index_none cls : forall k, (forall c, In c cls -> is_default c = false) -> default_index cls k = None.
 Proof.
@@ -993,18 +996,21 @@ Proof.
 Qed.
 
 Lemma shape_nth t cls : shape_ok t cls = true -> forall j c, nth_error cls j = Some c ->
-  exists ce body, c = SCase ce body false /\ ce_ok t ce = true /\ (S j < length cls -> is_default c = false).
+  exists ce body ft, c = SCase ce body ft /\ ce_ok t ce = true /\ (S j < length cls -> is_default c = false) /\
+    (ft = true -> S j < length cls).
 Proof.
   induction cls as [|c0 cls IH]; intros Hs [|j] c Hn; simpl in Hn; try discriminate.
   - inversion Hn; subst c0. simpl in Hs. destruct c; try discriminate.
     apply andb_prop in Hs. destruct Hs as [Hs Hrest]. apply andb_prop in Hs. destruct Hs as [Hs Hdef].
     apply andb_prop in Hs. destruct Hs as [Hce Hft].
-    destruct ft; [discriminate|]. exists ce, body. split; [reflexivity|]. split; [exact Hce|].
-    intros Hl. destruct cls as [|c1 cls]; [simpl in Hl; lia|]. apply negb_true_iff in Hdef. exact Hdef.
+    exists ce, body, ft. split; [reflexivity|]. split; [exact Hce|]. split.
+    + intros Hl. destruct cls as [|c1 cls]; [simpl in Hl; lia|]. apply negb_true_iff in Hdef. exact Hdef.
+    + intros ->. simpl in Hft. destruct cls; [discriminate | simpl; lia].
   - simpl in Hs. destruct c0; try discriminate.
     apply andb_prop in Hs. destruct Hs as [Hs Hrest].
-    destruct (IH Hrest j c Hn) as [ce' [body' [-> [A B]]]]. exists ce', body'. repeat split; auto.
-    intros Hl. apply B. simpl in Hl. lia.
+    destruct (IH Hrest j c Hn) as [ce' [body' [ft' [-> [A [B C]]]]]]. exists ce', body', ft'. repeat split; auto.
+    + intros Hl. apply B. simpl in Hl. lia.
+    + intros Hf. specialize (C Hf). simpl. lia.
 Qed.
 
 (** The nodes of clause [j] of a switch without a tag. *)
@@ -1095,8 +1101,8 @@ Proof.
     - destruct (skipn j cls) as [|c l] eqn:Hsk.
       { pose proof (skipn_nil_length _ _ Hsk). lia. }
       destruct (skipn_cons_nth _ _ _ _ Hsk) as [Hnth [Hsk' HSj]].
-      destruct (shape_nth _ _ Wshape j c Hnth) as [ce [body [-> [Hce Hlast]]]].
-      destruct (switch_embed init cls g sc nx K P j ce body false G Hnth) as [Gn [Gb Gc]].
+      destruct (shape_nth _ _ Wshape j c Hnth) as [ce [body [ft [-> [Hce [Hlast Hft]]]]]].
+      destruct (switch_embed init cls g sc nx K P j ce body ft G Hnth) as [Gn [Gb Gc]].
       assert (Ag3 : agree E1 (fst (salloc_opt init sc nx)) fr3).
       { eapply agree_below; [exact Ag1 | exact (proj1 Hok1) | exact Hinv]. }
       pose proof (salloc_list_mono (firstn j cls) (fst (salloc_opt init sc nx)) (snd (salloc_opt init sc nx))) as Mj.
@@ -1105,7 +1111,8 @@ Proof.
       + (* default: the last clause *)
         assert (HS : S j = length cls).
         { destruct (Nat.eq_dec (S j) (length cls)) as [e|ne]; [exact e|].
-          assert (Hd : is_default (SCase CDefault body false) = false) by (apply Hlast; lia). discriminate. }
+          assert (Hd : is_default (SCase CDefault body ft) = false) by (apply Hlast; lia). discriminate. }
+        assert (Hff : ft = false) by (destruct ft; [specialize (Hft eq_refl); lia | reflexivity]). subst ft.
         simpl select. rewrite <- Hsk', HS, skipn_all. simpl select.
         rewrite (default_index_at cls 0 j _ Hnth eq_refl Hnd). simpl.
         exists fr3. split; [exact Hinv|]. exists CDefault, body, false. split; [exact Hnth|].
@@ -1123,7 +1130,7 @@ Proof.
         destruct (beval E1 e) as [[|]|].
         * destruct B as [fr4 [R4 [_ F4]]].
           exists fr4. split; [intros i Hi; rewrite F4 by lia; apply Hinv; exact Hi|].
-          exists (CBools [e]), body, false. split; [exact Hnth|].
+          exists (CBools [e]), body, ft. split; [exact Hnth|].
           destruct (nth_error cls (S j)); exact R4.
         * destruct B as [fr4 [R4 [_ F4]]].
           assert (Hinv4 : forall i, i < snd (salloc_opt init sc nx) -> fr4 i = fr1 i).
@@ -1161,50 +1168,97 @@ Proof.
       eexists. split; [eapply reach_trans; [exact R1|]; eapply reach_trans; [exact Hm | apply Final]|].
       pose proof (leave_scope init sc nx E fr E1 [] E1 fr4 Hag eq_refl Ag4) as L.
       simpl. eexists. split; [reflexivity|]. split; [exact Pr4|]. split; [exists [], (restore E E1); auto | auto]. }
+  assert (BodyChain : forall k m, m + k = length cls -> forall ce body ft, nth_error cls m = Some (SCase ce body ft) ->
+     forall Ec frc outc o2 E2 out2, agree Ec (fst (salloc_opt init sc nx)) frc -> preserved fr frc sc nx ->
+     run_clauses (exec_list n) (skipn m cls) Ec outc = Res o2 E2 out2 ->
+     exists r, reach g (Some (clause_body_start (SCase ce body ft) P ((P ++ [2]) ++ [m]))) frc outc r /\
+       match o2 with
+       | OPanic => r = MPanic out2
+       | _ => exists fr5, r = MRun (match o2 with OContinue => k_cont K | _ => Some P end) fr5 out2 /\
+                preserved fr fr5 sc nx /\ agree E2 (fst (salloc_opt init sc nx)) fr5
+       end).
+  { induction k as [|k IHk]; intros m Hi ce body ft Hnth Ec frc outc o2 E2 out2 Agc Prc Hrun.
+    { assert (m < length cls) by (apply nth_error_Some; congruence). lia. }
+    rewrite (nth_error_skipn _ _ _ Hnth) in Hrun. cbn [run_clauses] in Hrun.
+    destruct (shape_nth _ _ Wshape m _ Hnth) as [ce0 [body0 [ft0 [Heq [Hce [_ Hft]]]]]]. inversion Heq; subst ce0 body0 ft0; clear Heq.
+    destruct (switch_embed init cls g sc nx K P m ce body ft G Hnth) as [_ [Gb _]].
+    assert (Wbody : forallb wf (case_body body ft) = true).
+    { apply wf_case_body. rewrite forallb_forall in Wb. exact (Wb _ (nth_error_In _ _ Hnth)). }
+    destruct (exec_list n (case_body body ft) Ec outc) as [|o3 E3 out3] eqn:Hb; [discriminate|].
+    unfold clause_body_start.
+    destruct (case_body body ft) as [|s0 b'] eqn:Hcb.
+    - (* empty body, no fallthrough *)
+      destruct ft; [destruct body; discriminate|].
+      destruct n; [discriminate|]. simpl in Hb. inversion Hb; subst o3 E3 out3; clear Hb.
+      inversion Hrun; subst o2 E2 out2; clear Hrun.
+      eexists. split; [apply reach_refl|]. exists frc. split; [reflexivity|]. split; [exact Prc|].
+      assert (Hr : restore Ec Ec = Ec) by (apply (restore_app Ec [] Ec eq_refl)). rewrite Hr. exact Agc.
+    - pose proof (salloc_list_mono (firstn m cls) (fst (salloc_opt init sc nx)) (snd (salloc_opt init sc nx))) as Mj.
+      pose proof (calloc_mono ce (fst (salloc_opt init sc nx)) (snd (salloc_list (firstn m cls) (fst (salloc_opt init sc nx)) (snd (salloc_opt init sc nx))))) as Mc.
+      assert (Hokb : scope_ok (fst (salloc_opt init sc nx)) (calloc ce (fst (salloc_opt init sc nx)) (snd (salloc_list (firstn m cls) (fst (salloc_opt init sc nx)) (snd (salloc_opt init sc nx)))))) by (eapply scope_ok_mono; [exact Hok1 | lia]).
+      assert (W5 : forall fr5, preserved frc fr5 (fst (salloc_opt init sc nx)) (calloc ce (fst (salloc_opt init sc nx)) (snd (salloc_list (firstn m cls) (fst (salloc_opt init sc nx)) (snd (salloc_opt init sc nx))))) -> preserved fr fr5 sc nx).
+      { intros fr5 Pr5. eapply preserved_trans; [exact Prc|]. eapply preserved_weaken; [exact Pr5|].
+        intros x Hx Hv. destruct (weaken_after_opt init sc nx x Hok Hx Hv) as [A B]. split; [lia | exact B]. }
+      unfold clause_empty in Gb. rewrite Hcb in Gb.
+      destruct ft.
+      + (* fallthrough: the next clause exists *)
+        specialize (Hft eq_refl).
+        destruct (nth_error cls (S m)) as [c'|] eqn:Hnext; [|apply nth_error_None in Hnext; lia].
+        destruct (shape_nth _ _ Wshape (S m) c' Hnext) as [ce' [body' [ft' [-> _]]]].
+        rewrite ?Bool.andb_false_r in Gb. simpl in Gb.
+        destruct (branch_block n IHl (s0 :: b') g _ _ (Some P) (k_cont K) _ _ Ec frc outc o3 E3 out3 Hb Gb Wbody Agc Hokb) as [r5 [R5 Post5]].
+        destruct o3; simpl in Post5.
+        * destruct Post5 as [fr5 [-> [Pr5 [Ext [Eb [HE AgB]]]]]].
+          rewrite (agree_restore _ _ _ _ _ _ _ Agc HE AgB) in Hrun.
+          destruct (IHk (S m) ltac:(lia) ce' body' ft' Hnext Eb fr5 out3 o2 E2 out2 AgB (W5 fr5 Pr5) Hrun) as [r6 [R6 Post6]].
+          exists r6. split; [|exact Post6]. eapply reach_trans; [exact R5|]. revert R6.
+          unfold clause_ref, clause_body_start.
+          repeat match goal with |- context [Nat.eqb ?a 0] => destruct (Nat.eqb a 0) end;
+            destruct (case_body body' ft'); simpl; intros R6; exact R6.
+        * inversion Hrun; subst o2 E2 out2; clear Hrun.
+          destruct Post5 as [fr5 [-> [Pr5 [Ext [Eb [HE AgB]]]]]].
+          eexists. split; [exact R5|]. exists fr5. split; [reflexivity|]. split; [apply W5; exact Pr5|].
+          rewrite (agree_restore _ _ _ _ _ _ _ Agc HE AgB). exact AgB.
+        * inversion Hrun; subst o2 E2 out2; clear Hrun.
+          destruct Post5 as [fr5 [-> [Pr5 [Ext [Eb [HE AgB]]]]]].
+          eexists. split; [exact R5|]. exists fr5. split; [reflexivity|]. split; [apply W5; exact Pr5|].
+          rewrite (agree_restore _ _ _ _ _ _ _ Agc HE AgB). exact AgB.
+        * inversion Hrun; subst o2 E2 out2; clear Hrun. subst r5. eexists. split; [exact R5 | reflexivity].
+      + rewrite ?Bool.andb_false_r in Gb. simpl in Gb.
+        destruct (branch_block n IHl (s0 :: b') g _ _ (Some P) (k_cont K) _ _ Ec frc outc o3 E3 out3 Hb Gb Wbody Agc Hokb) as [r5 [R5 Post5]].
+        destruct o3; simpl in Post5; inversion Hrun; subst o2 E2 out2; clear Hrun.
+        * destruct Post5 as [fr5 [-> [Pr5 [Ext [Eb [HE AgB]]]]]].
+          eexists. split; [exact R5|]. exists fr5. split; [reflexivity|]. split; [apply W5; exact Pr5|].
+          rewrite (agree_restore _ _ _ _ _ _ _ Agc HE AgB). exact AgB.
+        * destruct Post5 as [fr5 [-> [Pr5 [Ext [Eb [HE AgB]]]]]].
+          eexists. split; [exact R5|]. exists fr5. split; [reflexivity|]. split; [apply W5; exact Pr5|].
+          rewrite (agree_restore _ _ _ _ _ _ _ Agc HE AgB). exact AgB.
+        * destruct Post5 as [fr5 [-> [Pr5 [Ext [Eb [HE AgB]]]]]].
+          eexists. split; [exact R5|]. exists fr5. split; [reflexivity|]. split; [apply W5; exact Pr5|].
+          rewrite (agree_restore _ _ _ _ _ _ _ Agc HE AgB). exact AgB.
+        * subst r5. eexists. split; [exact R5 | reflexivity]. }
   destruct Hm as [ce [body [ft [Hnth R4]]]].
-  destruct (shape_nth _ _ Wshape i _ Hnth) as [ce0 [body0 [Heq [Hce _]]]]. inversion Heq; subst ce0 body0 ft; clear Heq.
-  destruct (nth_error_skipn _ _ _ Hnth) as [l' Hsk]. rewrite Hsk in H. simpl run_clauses in H.
-  destruct (switch_embed init cls g sc nx K P i ce body false G Hnth) as [_ [Gb _]].
-  assert (Wbody : forallb wf body = true).
-  { rewrite forallb_forall in Wb. exact (Wb _ (nth_error_In _ _ Hnth)). }
-  destruct (exec_list n body E1 out1) as [|o2 E2 out2] eqn:Hb; [discriminate|].
-  assert (Pre : reach g (Some (sstart (SSwitch init None cls) P)) fr out
-                  (MRun (Some (clause_body_start (SCase ce body false) P ((P ++ [2]) ++ [i]))) fr4 out1)).
-  { eapply reach_trans; [exact R1 | exact R4]. }
-  destruct body as [|s0 body'].
-  - (* empty body *)
-    destruct n; [discriminate|]. simpl in Hb. inversion Hb; subst o2 E2 out2; clear Hb.
-    inversion H; subst o E' out'; clear H.
-    eexists. split; [eapply reach_trans; [exact Pre | apply Final]|].
-    pose proof (Leave fr4 E1 [] E1 eq_refl Ag4) as L.
-    simpl. eexists. split; [reflexivity|]. split; [exact Pr4|]. split; [eexists [], _; split; [reflexivity | exact L] | intros _; exact L].
-  - simpl in Gb. rewrite ?Bool.andb_false_r in Gb. simpl in Gb.
-    set (body := s0 :: body') in *.
-    pose proof (salloc_list_mono (firstn i cls) (fst (salloc_opt init sc nx)) (snd (salloc_opt init sc nx))) as Mj.
-    pose proof (calloc_mono ce (fst (salloc_opt init sc nx)) (snd (salloc_list (firstn i cls) (fst (salloc_opt init sc nx)) (snd (salloc_opt init sc nx))))) as Mc.
-    assert (Hokb : scope_ok (fst (salloc_opt init sc nx))
-                     (calloc ce (fst (salloc_opt init sc nx)) (snd (salloc_list (firstn i cls) (fst (salloc_opt init sc nx)) (snd (salloc_opt init sc nx)))))).
-    { eapply scope_ok_mono; [exact Hok1 | lia]. }
-    destruct (branch_block n IHl body g _ _ (Some P) (k_cont K) _ _ E1 fr4 out1 o2 E2 out2 Hb Gb Wbody Ag4 Hokb) as [r5 [R5 Post5]].
-    assert (W5 : forall fr5, preserved fr4 fr5 (fst (salloc_opt init sc nx))
-                    (calloc ce (fst (salloc_opt init sc nx)) (snd (salloc_list (firstn i cls) (fst (salloc_opt init sc nx)) (snd (salloc_opt init sc nx))))) ->
-                 preserved fr fr5 sc nx).
-    { intros fr5 Pr5. eapply preserved_trans; [exact Pr4|]. eapply preserved_weaken; [exact Pr5|].
-      intros x Hx Hv. destruct (weaken_after_opt init sc nx x Hok Hx Hv) as [A B]. split; [lia | exact B]. }
-    destruct o2; simpl in Post5, H; inversion H; subst o E' out'; clear H.
-    + destruct Post5 as [fr5 [-> [Pr5 [Ext [Eb [HE AgB]]]]]].
-      eexists. split; [eapply reach_trans; [exact Pre|]; eapply reach_trans; [exact R5 | apply Final]|].
-      pose proof (Leave fr5 E2 Ext Eb HE AgB) as L.
-      simpl. eexists. split; [reflexivity|]. split; [apply W5; exact Pr5|]. split; [eexists [], _; split; [reflexivity | exact L] | intros _; exact L].
-    + destruct Post5 as [fr5 [-> [Pr5 [Ext [Eb [HE AgB]]]]]].
-      eexists. split; [eapply reach_trans; [exact Pre|]; eapply reach_trans; [exact R5 | apply Final]|].
-      pose proof (Leave fr5 E2 Ext Eb HE AgB) as L.
-      simpl. eexists. split; [reflexivity|]. split; [apply W5; exact Pr5|]. split; [eexists [], _; split; [reflexivity | exact L] | intros _; exact L].
-    + destruct Post5 as [fr5 [-> [Pr5 [Ext [Eb [HE AgB]]]]]].
-      eexists. split; [eapply reach_trans; [exact Pre | exact R5]|].
-      pose proof (Leave fr5 E2 Ext Eb HE AgB) as L.
-      simpl. eexists. split; [reflexivity|]. split; [apply W5; exact Pr5|]. split; [eexists [], _; split; [reflexivity | exact L] | discriminate].
-    + subst r5. eexists. split; [eapply reach_trans; [exact Pre | exact R5] | reflexivity].
+  destruct (run_clauses (exec_list n) (skipn i cls) E1 out1) as [|o2 E2 out2] eqn:Hrun; [discriminate|].
+  assert (Hi : i + (length cls - i) = length cls).
+  { assert (i < length cls) by (apply nth_error_Some; congruence). lia. }
+  destruct (BodyChain (length cls - i) i Hi ce body ft Hnth E1 fr4 out1 o2 E2 out2 Ag4 Pr4 Hrun) as [r5 [R5 Post5]].
+  assert (Pre : forall r, reach g (Some (clause_body_start (SCase ce body ft) P ((P ++ [2]) ++ [i]))) fr4 out1 r ->
+                reach g (Some (sstart (SSwitch init None cls) P)) fr out r).
+  { intros r Hr. eapply reach_trans; [exact R1|]. eapply reach_trans; [exact R4 | exact Hr]. }
+  destruct o2; simpl in Post5; inversion H; subst o E' out'; clear H.
+  - destruct Post5 as [fr5 [-> [Pr5 Ag5]]].
+    eexists. split; [apply Pre; eapply reach_trans; [exact R5 | apply Final]|].
+    pose proof (leave_scope init sc nx E fr E2 [] E2 fr5 Hag eq_refl Ag5) as L.
+    simpl. eexists. split; [reflexivity|]. split; [exact Pr5|]. split; [eexists [], _; split; [reflexivity | exact L] | intros _; exact L].
+  - destruct Post5 as [fr5 [-> [Pr5 Ag5]]].
+    eexists. split; [apply Pre; eapply reach_trans; [exact R5 | apply Final]|].
+    pose proof (leave_scope init sc nx E fr E2 [] E2 fr5 Hag eq_refl Ag5) as L.
+    simpl. eexists. split; [reflexivity|]. split; [exact Pr5|]. split; [eexists [], _; split; [reflexivity | exact L] | intros _; exact L].
+  - destruct Post5 as [fr5 [-> [Pr5 Ag5]]].
+    eexists. split; [apply Pre; exact R5|].
+    pose proof (leave_scope init sc nx E fr E2 [] E2 fr5 Hag eq_refl Ag5) as L.
+    simpl. eexists. split; [reflexivity|]. split; [exact Pr5|]. split; [eexists [], _; split; [reflexivity | exact L] | discriminate].
+  - subst r5. eexists. split; [apply Pre; exact R5 | reflexivity].
 Qed.
 
 
@@ -1366,8 +1420,8 @@ Proof.
     - destruct (skipn j cls) as [|c l] eqn:Hsk.
       { pose proof (skipn_nil_length _ _ Hsk). lia. }
       destruct (skipn_cons_nth _ _ _ _ Hsk) as [Hnth [Hsk' HSj]].
-      destruct (shape_nth _ _ Wshape j c Hnth) as [ce [body [-> [Hce Hlast]]]].
-      destruct (switch_embed_tag init t cls g sc nx K P j ce body false G Hnth) as [Gn [Gb Gc]].
+      destruct (shape_nth _ _ Wshape j c Hnth) as [ce [body [ft [-> [Hce [Hlast Hft]]]]]].
+      destruct (switch_embed_tag init t cls g sc nx K P j ce body ft G Hnth) as [Gn [Gb Gc]].
       assert (Ag3 : agree E1 (fst (salloc_opt init sc nx)) fr3).
       { eapply agree_below; [exact Ag2 | exact (proj1 Hok1)|]. intros i Hi. apply Hinv. lia. }
       pose proof (salloc_list_mono (firstn j cls) (fst (salloc_opt init sc nx)) (snd (aalloc t (fst (salloc_opt init sc nx)) (snd (salloc_opt init sc nx)) None))) as Mj.
@@ -1376,7 +1430,8 @@ Proof.
       + (* default: the last clause *)
         assert (HS : S j = length cls).
         { destruct (Nat.eq_dec (S j) (length cls)) as [e|ne]; [exact e|].
-          assert (Hd : is_default (SCase CDefault body false) = false) by (apply Hlast; lia). discriminate. }
+          assert (Hd : is_default (SCase CDefault body ft) = false) by (apply Hlast; lia). discriminate. }
+        assert (Hff : ft = false) by (destruct ft; [specialize (Hft eq_refl); lia | reflexivity]). subst ft.
         simpl select. rewrite <- Hsk', HS, skipn_all. simpl select.
         rewrite (default_index_at cls 0 j _ Hnth eq_refl Hnd). simpl.
         exists fr3. split; [exact Hinv|]. exists CDefault, body, false. split; [exact Hnth|].
@@ -1408,7 +1463,7 @@ Proof.
         rewrite (match_ints_first E1 (fst (salloc_opt init sc nx)) fr4 tv e rest (snd (salloc_list (firstn j cls) (fst (salloc_opt init sc nx)) (snd (aalloc t (fst (salloc_opt init sc nx)) (snd (salloc_opt init sc nx)) None)))) v0 Hce Ag4 V4).
         assert (Step : step g ((P ++ [2]) ++ [j]) fr4 out1 =
                   MRun (if existsb (fun o => Z.eqb tv (oval fr4 o)) (fst (aalloc_list (e :: rest) (fst (salloc_opt init sc nx)) (snd (salloc_list (firstn j cls) (fst (salloc_opt init sc nx)) (snd (aalloc t (fst (salloc_opt init sc nx)) (snd (salloc_opt init sc nx)) None))))))
-                        then Some (clause_body_start (SCase (CInts (e :: rest)) body false) P ((P ++ [2]) ++ [j]))
+                        then Some (clause_body_start (SCase (CInts (e :: rest)) body ft) P ((P ++ [2]) ++ [j]))
                         else match nth_error cls (S j) with
                              | None => Some P
                              | Some c' => if Nat.ltb 0 (clause_exprs c') then Some (sstart c' ((P ++ [2]) ++ [S j])) else Some ((P ++ [2]) ++ [S j])
@@ -1417,14 +1472,14 @@ Proof.
           destruct (nth_error cls (S j)) as [c'|]; [destruct (Nat.ltb 0 (clause_exprs c'))|];
             destruct (existsb _ _); reflexivity. }
         destruct (existsb (fun o => Z.eqb tv (oval fr4 o)) (fst (aalloc_list (e :: rest) (fst (salloc_opt init sc nx)) (snd (salloc_list (firstn j cls) (fst (salloc_opt init sc nx)) (snd (aalloc t (fst (salloc_opt init sc nx)) (snd (salloc_opt init sc nx)) None))))))).
-        * exists fr4. split; [exact Hinv4|]. exists (CInts (e :: rest)), body, false. split; [exact Hnth|].
+        * exists fr4. split; [exact Hinv4|]. exists (CInts (e :: rest)), body, ft. split; [exact Hnth|].
           eapply reach_trans; [exact R0|]. apply reach_one. exact Step.
         * assert (Hst' : isentry (S j) (match nth_error cls (S j) with
                              | None => Some P
                              | Some c' => if Nat.ltb 0 (clause_exprs c') then Some (sstart c' ((P ++ [2]) ++ [S j])) else Some ((P ++ [2]) ++ [S j])
                              end)).
           { unfold isentry. destruct (nth_error cls (S j)) as [c'|] eqn:Hnext; [|reflexivity].
-            destruct (shape_nth _ _ Wshape (S j) c' Hnext) as [ce' [body' [-> [Hce' _]]]].
+            destruct (shape_nth _ _ Wshape (S j) c' Hnext) as [ce' [body' [ft' [-> [Hce' _]]]]].
             destruct ce' as [|l1|l1]; simpl in Hce' |- *.
             - right. split; reflexivity.
             - destruct l1; [discriminate|]. left. reflexivity.
@@ -1467,46 +1522,97 @@ Proof.
       eexists. split; [eapply reach_trans; [exact R12|]; eapply reach_trans; [exact Hm | apply Final]|].
       pose proof (leave_scope init sc nx E fr E1 [] E1 fr4 Hag eq_refl Ag4) as L.
       simpl. eexists. split; [reflexivity|]. split; [exact Pr4|]. split; [exists [], (restore E E1); auto | auto]. }
+  assert (BodyChain : forall k m, m + k = length cls -> forall ce body ft, nth_error cls m = Some (SCase ce body ft) ->
+     forall Ec frc outc o2 E2 out2, agree Ec (fst (salloc_opt init sc nx)) frc -> preserved fr frc sc nx ->
+     run_clauses (exec_list n) (skipn m cls) Ec outc = Res o2 E2 out2 ->
+     exists r, reach g (Some (clause_body_start (SCase ce body ft) P ((P ++ [2]) ++ [m]))) frc outc r /\
+       match o2 with
+       | OPanic => r = MPanic out2
+       | _ => exists fr5, r = MRun (match o2 with OContinue => k_cont K | _ => Some P end) fr5 out2 /\
+                preserved fr fr5 sc nx /\ agree E2 (fst (salloc_opt init sc nx)) fr5
+       end).
+  { induction k as [|k IHk]; intros m Hi ce body ft Hnth Ec frc outc o2 E2 out2 Agc Prc Hrun.
+    { assert (m < length cls) by (apply nth_error_Some; congruence). lia. }
+    rewrite (nth_error_skipn _ _ _ Hnth) in Hrun. cbn [run_clauses] in Hrun.
+    destruct (shape_nth _ _ Wshape m _ Hnth) as [ce0 [body0 [ft0 [Heq [Hce [_ Hft]]]]]]. inversion Heq; subst ce0 body0 ft0; clear Heq.
+    destruct (switch_embed_tag init t cls g sc nx K P m ce body ft G Hnth) as [_ [Gb _]].
+    assert (Wbody : forallb wf (case_body body ft) = true).
+    { apply wf_case_body. rewrite forallb_forall in Wb. exact (Wb _ (nth_error_In _ _ Hnth)). }
+    destruct (exec_list n (case_body body ft) Ec outc) as [|o3 E3 out3] eqn:Hb; [discriminate|].
+    unfold clause_body_start.
+    destruct (case_body body ft) as [|s0 b'] eqn:Hcb.
+    - (* empty body, no fallthrough *)
+      destruct ft; [destruct body; discriminate|].
+      destruct n; [discriminate|]. simpl in Hb. inversion Hb; subst o3 E3 out3; clear Hb.
+      inversion Hrun; subst o2 E2 out2; clear Hrun.
+      eexists. split; [apply reach_refl|]. exists frc. split; [reflexivity|]. split; [exact Prc|].
+      assert (Hr : restore Ec Ec = Ec) by (apply (restore_app Ec [] Ec eq_refl)). rewrite Hr. exact Agc.
+    - pose proof (salloc_list_mono (firstn m cls) (fst (salloc_opt init sc nx)) (snd (aalloc t (fst (salloc_opt init sc nx)) (snd (salloc_opt init sc nx)) None))) as Mj.
+      pose proof (calloc_mono ce (fst (salloc_opt init sc nx)) (snd (salloc_list (firstn m cls) (fst (salloc_opt init sc nx)) (snd (aalloc t (fst (salloc_opt init sc nx)) (snd (salloc_opt init sc nx)) None))))) as Mc.
+      assert (Hokb : scope_ok (fst (salloc_opt init sc nx)) (calloc ce (fst (salloc_opt init sc nx)) (snd (salloc_list (firstn m cls) (fst (salloc_opt init sc nx)) (snd (aalloc t (fst (salloc_opt init sc nx)) (snd (salloc_opt init sc nx)) None)))))) by (eapply scope_ok_mono; [exact Hok1 | lia]).
+      assert (W5 : forall fr5, preserved frc fr5 (fst (salloc_opt init sc nx)) (calloc ce (fst (salloc_opt init sc nx)) (snd (salloc_list (firstn m cls) (fst (salloc_opt init sc nx)) (snd (aalloc t (fst (salloc_opt init sc nx)) (snd (salloc_opt init sc nx)) None))))) -> preserved fr fr5 sc nx).
+      { intros fr5 Pr5. eapply preserved_trans; [exact Prc|]. eapply preserved_weaken; [exact Pr5|].
+        intros x Hx Hv. destruct (weaken_after_opt init sc nx x Hok Hx Hv) as [A B]. split; [lia | exact B]. }
+      unfold clause_empty in Gb. rewrite Hcb in Gb.
+      destruct ft.
+      + (* fallthrough: the next clause exists *)
+        specialize (Hft eq_refl).
+        destruct (nth_error cls (S m)) as [c'|] eqn:Hnext; [|apply nth_error_None in Hnext; lia].
+        destruct (shape_nth _ _ Wshape (S m) c' Hnext) as [ce' [body' [ft' [-> _]]]].
+        rewrite ?Bool.andb_false_r in Gb. simpl in Gb.
+        destruct (branch_block n IHl (s0 :: b') g _ _ (Some P) (k_cont K) _ _ Ec frc outc o3 E3 out3 Hb Gb Wbody Agc Hokb) as [r5 [R5 Post5]].
+        destruct o3; simpl in Post5.
+        * destruct Post5 as [fr5 [-> [Pr5 [Ext [Eb [HE AgB]]]]]].
+          rewrite (agree_restore _ _ _ _ _ _ _ Agc HE AgB) in Hrun.
+          destruct (IHk (S m) ltac:(lia) ce' body' ft' Hnext Eb fr5 out3 o2 E2 out2 AgB (W5 fr5 Pr5) Hrun) as [r6 [R6 Post6]].
+          exists r6. split; [|exact Post6]. eapply reach_trans; [exact R5|]. revert R6.
+          unfold clause_ref, clause_body_start.
+          repeat match goal with |- context [Nat.eqb ?a 0] => destruct (Nat.eqb a 0) end;
+            destruct (case_body body' ft'); simpl; intros R6; exact R6.
+        * inversion Hrun; subst o2 E2 out2; clear Hrun.
+          destruct Post5 as [fr5 [-> [Pr5 [Ext [Eb [HE AgB]]]]]].
+          eexists. split; [exact R5|]. exists fr5. split; [reflexivity|]. split; [apply W5; exact Pr5|].
+          rewrite (agree_restore _ _ _ _ _ _ _ Agc HE AgB). exact AgB.
+        * inversion Hrun; subst o2 E2 out2; clear Hrun.
+          destruct Post5 as [fr5 [-> [Pr5 [Ext [Eb [HE AgB]]]]]].
+          eexists. split; [exact R5|]. exists fr5. split; [reflexivity|]. split; [apply W5; exact Pr5|].
+          rewrite (agree_restore _ _ _ _ _ _ _ Agc HE AgB). exact AgB.
+        * inversion Hrun; subst o2 E2 out2; clear Hrun. subst r5. eexists. split; [exact R5 | reflexivity].
+      + rewrite ?Bool.andb_false_r in Gb. simpl in Gb.
+        destruct (branch_block n IHl (s0 :: b') g _ _ (Some P) (k_cont K) _ _ Ec frc outc o3 E3 out3 Hb Gb Wbody Agc Hokb) as [r5 [R5 Post5]].
+        destruct o3; simpl in Post5; inversion Hrun; subst o2 E2 out2; clear Hrun.
+        * destruct Post5 as [fr5 [-> [Pr5 [Ext [Eb [HE AgB]]]]]].
+          eexists. split; [exact R5|]. exists fr5. split; [reflexivity|]. split; [apply W5; exact Pr5|].
+          rewrite (agree_restore _ _ _ _ _ _ _ Agc HE AgB). exact AgB.
+        * destruct Post5 as [fr5 [-> [Pr5 [Ext [Eb [HE AgB]]]]]].
+          eexists. split; [exact R5|]. exists fr5. split; [reflexivity|]. split; [apply W5; exact Pr5|].
+          rewrite (agree_restore _ _ _ _ _ _ _ Agc HE AgB). exact AgB.
+        * destruct Post5 as [fr5 [-> [Pr5 [Ext [Eb [HE AgB]]]]]].
+          eexists. split; [exact R5|]. exists fr5. split; [reflexivity|]. split; [apply W5; exact Pr5|].
+          rewrite (agree_restore _ _ _ _ _ _ _ Agc HE AgB). exact AgB.
+        * subst r5. eexists. split; [exact R5 | reflexivity]. }
   destruct Hm as [ce [body [ft [Hnth R4]]]].
-  destruct (shape_nth _ _ Wshape i _ Hnth) as [ce0 [body0 [Heq [Hce _]]]]. inversion Heq; subst ce0 body0 ft; clear Heq.
-  destruct (nth_error_skipn _ _ _ Hnth) as [l' Hsk]. rewrite Hsk in H. simpl run_clauses in H.
-  destruct (switch_embed_tag init t cls g sc nx K P i ce body false G Hnth) as [_ [Gb _]].
-  assert (Wbody : forallb wf body = true).
-  { rewrite forallb_forall in Wb. exact (Wb _ (nth_error_In _ _ Hnth)). }
-  destruct (exec_list n body E1 out1) as [|o2 E2 out2] eqn:Hb; [discriminate|].
-  assert (Pre : reach g (Some (sstart (SSwitch init (Some t) cls) P)) fr out
-                  (MRun (Some (clause_body_start (SCase ce body false) P ((P ++ [2]) ++ [i]))) fr4 out1)).
-  { eapply reach_trans; [exact R12 | exact R4]. }
-  destruct body as [|s0 body'].
-  - destruct n; [discriminate|]. simpl in Hb. inversion Hb; subst o2 E2 out2; clear Hb.
-    inversion H; subst o E' out'; clear H.
-    eexists. split; [eapply reach_trans; [exact Pre | apply Final]|].
-    pose proof (Leave fr4 E1 [] E1 eq_refl Ag4) as L.
-    simpl. eexists. split; [reflexivity|]. split; [exact Pr4|]. split; [eexists [], _; split; [reflexivity | exact L] | intros _; exact L].
-  - simpl in Gb. rewrite ?Bool.andb_false_r in Gb. simpl in Gb.
-    set (body := s0 :: body') in *.
-    pose proof (salloc_list_mono (firstn i cls) (fst (salloc_opt init sc nx)) (snd (aalloc t (fst (salloc_opt init sc nx)) (snd (salloc_opt init sc nx)) None))) as Mj.
-    pose proof (calloc_mono ce (fst (salloc_opt init sc nx)) (snd (salloc_list (firstn i cls) (fst (salloc_opt init sc nx)) (snd (aalloc t (fst (salloc_opt init sc nx)) (snd (salloc_opt init sc nx)) None))))) as Mc.
-    assert (Hokb : scope_ok (fst (salloc_opt init sc nx)) (calloc ce (fst (salloc_opt init sc nx)) (snd (salloc_list (firstn i cls) (fst (salloc_opt init sc nx)) (snd (aalloc t (fst (salloc_opt init sc nx)) (snd (salloc_opt init sc nx)) None)))))).
-    { eapply scope_ok_mono; [exact Hok1 | lia]. }
-    destruct (branch_block n IHl body g _ _ (Some P) (k_cont K) _ _ E1 fr4 out1 o2 E2 out2 Hb Gb Wbody Ag4 Hokb) as [r5 [R5 Post5]].
-    assert (W5 : forall fr5, preserved fr4 fr5 (fst (salloc_opt init sc nx)) (calloc ce (fst (salloc_opt init sc nx)) (snd (salloc_list (firstn i cls) (fst (salloc_opt init sc nx)) (snd (aalloc t (fst (salloc_opt init sc nx)) (snd (salloc_opt init sc nx)) None))))) -> preserved fr fr5 sc nx).
-    { intros fr5 Pr5. eapply preserved_trans; [exact Pr4|]. eapply preserved_weaken; [exact Pr5|].
-      intros x Hx Hv. destruct (weaken_after_opt init sc nx x Hok Hx Hv) as [A B]. split; [lia | exact B]. }
-    destruct o2; simpl in Post5, H; inversion H; subst o E' out'; clear H.
-    + destruct Post5 as [fr5 [-> [Pr5 [Ext [Eb [HE AgB]]]]]].
-      eexists. split; [eapply reach_trans; [exact Pre|]; eapply reach_trans; [exact R5 | apply Final]|].
-      pose proof (Leave fr5 E2 Ext Eb HE AgB) as L.
-      simpl. eexists. split; [reflexivity|]. split; [apply W5; exact Pr5|]. split; [eexists [], _; split; [reflexivity | exact L] | intros _; exact L].
-    + destruct Post5 as [fr5 [-> [Pr5 [Ext [Eb [HE AgB]]]]]].
-      eexists. split; [eapply reach_trans; [exact Pre|]; eapply reach_trans; [exact R5 | apply Final]|].
-      pose proof (Leave fr5 E2 Ext Eb HE AgB) as L.
-      simpl. eexists. split; [reflexivity|]. split; [apply W5; exact Pr5|]. split; [eexists [], _; split; [reflexivity | exact L] | intros _; exact L].
-    + destruct Post5 as [fr5 [-> [Pr5 [Ext [Eb [HE AgB]]]]]].
-      eexists. split; [eapply reach_trans; [exact Pre | exact R5]|].
-      pose proof (Leave fr5 E2 Ext Eb HE AgB) as L.
-      simpl. eexists. split; [reflexivity|]. split; [apply W5; exact Pr5|]. split; [eexists [], _; split; [reflexivity | exact L] | discriminate].
-    + subst r5. eexists. split; [eapply reach_trans; [exact Pre | exact R5] | reflexivity].
+  destruct (run_clauses (exec_list n) (skipn i cls) E1 out1) as [|o2 E2 out2] eqn:Hrun; [discriminate|].
+  assert (Hi : i + (length cls - i) = length cls).
+  { assert (i < length cls) by (apply nth_error_Some; congruence). lia. }
+  destruct (BodyChain (length cls - i) i Hi ce body ft Hnth E1 fr4 out1 o2 E2 out2 Ag4 Pr4 Hrun) as [r5 [R5 Post5]].
+  assert (Pre : forall r, reach g (Some (clause_body_start (SCase ce body ft) P ((P ++ [2]) ++ [i]))) fr4 out1 r ->
+                reach g (Some (sstart (SSwitch init (Some t) cls) P)) fr out r).
+  { intros r Hr. eapply reach_trans; [exact R12|]. eapply reach_trans; [exact R4 | exact Hr]. }
+  destruct o2; simpl in Post5; inversion H; subst o E' out'; clear H.
+  - destruct Post5 as [fr5 [-> [Pr5 Ag5]]].
+    eexists. split; [apply Pre; eapply reach_trans; [exact R5 | apply Final]|].
+    pose proof (leave_scope init sc nx E fr E2 [] E2 fr5 Hag eq_refl Ag5) as L.
+    simpl. eexists. split; [reflexivity|]. split; [exact Pr5|]. split; [eexists [], _; split; [reflexivity | exact L] | intros _; exact L].
+  - destruct Post5 as [fr5 [-> [Pr5 Ag5]]].
+    eexists. split; [apply Pre; eapply reach_trans; [exact R5 | apply Final]|].
+    pose proof (leave_scope init sc nx E fr E2 [] E2 fr5 Hag eq_refl Ag5) as L.
+    simpl. eexists. split; [reflexivity|]. split; [exact Pr5|]. split; [eexists [], _; split; [reflexivity | exact L] | intros _; exact L].
+  - destruct Post5 as [fr5 [-> [Pr5 Ag5]]].
+    eexists. split; [apply Pre; exact R5|].
+    pose proof (leave_scope init sc nx E fr E2 [] E2 fr5 Hag eq_refl Ag5) as L.
+    simpl. eexists. split; [reflexivity|]. split; [exact Pr5|]. split; [eexists [], _; split; [reflexivity | exact L] | discriminate].
+  - subst r5. eexists. split; [apply Pre; exact R5 | reflexivity].
 Qed.
 
 (* ------------------------------------------------------------------ all statements *)
